@@ -270,11 +270,6 @@ def run(ctx):
                'stores the spec, then recomputes the cost-function map from it' if ok else
                'the cost-function map is not recomputed from the new specification: switching the '
                'specification and back does not restore the same cost', where(s))
-        extra = [e for e in E.closure(s) if e.owners & {'self'} and
-                 e.name not in ('_cost_specification', '_cost_fn_map')]
-        ctx.ob('R18d', f'{w.name}.cost_specification setter writes nothing else', not extra,
-               'only the spec and its map are written' if not extra else
-               f'also writes {[e.name for e in extra]}', where(s), nontrivial=False)
     ctx.floor('R18d', 'cost_specification setters', n, 3)
     ctx.count('resolved call instantiations', E.resolved_calls)
     ctx.count('unresolved repository calls', len(E.unresolved))
@@ -335,6 +330,23 @@ def kill_before_read(ctx, E: Effects, e: Effect, obs) -> Tuple[bool, str]:
                                      e2.data[0][2] == attr and show(e2.data[1]) == key
                                      for e2 in p.events[:i])
                         readers.append((g, killed))
+                # element reads  X[k]  (in returned values, stored values, call arguments)
+                reads_here = []
+                for i, ev in enumerate(p.events):
+                    for d in ev.data:
+                        if isinstance(d, tuple) and ev.kind != 'setitem':
+                            if mentions(d, lambda x: x[0] == 'sub' and x[1][0] == 'attr' and
+                                        x[1][2] == attr):
+                                reads_here.append(i)
+                if p.retval is not None and mentions(
+                        p.retval, lambda x: x[0] == 'sub' and x[1][0] == 'attr' and
+                        x[1][2] == attr):
+                    reads_here.append(len(p.events))
+                if reads_here:
+                    first = min(reads_here)
+                    killed = any(e2.kind == 'setitem' and e2.data[0][0] == 'attr' and
+                                 e2.data[0][2] == attr for e2 in p.events[:first])
+                    readers.append((g, killed))
     if readers and all(k for _, k in readers):
         return True, (f'every observer-reachable use of {attr} ({len(readers)} site(s)) rewrites '
                       f'key {key} first (kill-before-read)')
